@@ -3,15 +3,18 @@
 # and the demonstration fails; (2) without the patch the demonstration passes.
 # usage: confirm_seed.sh <worktree> <seed-dir> <modname> [unit|integ]
 #   unit : demo.rs is a unit-test module for starlark/src/tests (default)
-#   integ: demo.rs is an integration test for starlark/tests/<modname>.rs
+#   integ: demo.rs is an integration test for <crate>/tests/<modname>.rs
+#   crateunit: demo.rs is a #[cfg(test)] module of <crate>/src/lib.rs
 set -u
 WT="$1"; SD="$2"; MOD="$3"; MODE="${4:-unit}"; CRATE="${5:-starlark}"
 cd "$WT" || exit 2
 place_demo() {
-  if [ "$MODE" = "integ" ]; then mkdir -p $CRATE/tests; cp "$SD/demo.rs" $CRATE/tests/$MOD.rs; else cp "$SD/demo.rs" starlark/src/tests/$MOD.rs; echo "mod $MOD;" >> starlark/src/tests.rs; fi
+  if [ "$MODE" = "integ" ]; then mkdir -p $CRATE/tests; cp "$SD/demo.rs" $CRATE/tests/$MOD.rs;
+  elif [ "$MODE" = "crateunit" ]; then cp "$SD/demo.rs" $CRATE/src/$MOD.rs; printf '#[cfg(test)]\nmod %s;\n' "$MOD" >> $CRATE/src/lib.rs; else cp "$SD/demo.rs" starlark/src/tests/$MOD.rs; echo "mod $MOD;" >> starlark/src/tests.rs; fi
 }
 run_demo() {
-  if [ "$MODE" = "integ" ]; then cargo test -p $CRATE --test $MOD --offline -j 8; else cargo test -p starlark --lib --offline -j 8 $MOD; fi
+  if [ "$MODE" = "integ" ]; then cargo test -p $CRATE --test $MOD --offline -j 8;
+  elif [ "$MODE" = "crateunit" ]; then cargo test -p $CRATE --lib --offline -j 8 $MOD; else cargo test -p starlark --lib --offline -j 8 $MOD; fi
 }
 git checkout -q -- . ; git clean -fdq -e target
 git apply "$SD/patch.diff" || { echo "CONFIRM patch does not apply"; exit 2; }
